@@ -69,4 +69,8 @@ def main(argv):
             print(f"selftest {pid}: {len(a)} runs x {2 if short else 3} executions ({core.n_workers()} workers"
                   f"{'' if short else ', 3 workers'}, fresh interpreter with 5 workers PYTHONHASHSEED={hs} ASLR {aslr}): "
                   f"digests identical")
+    if failures and '--advisory' in argv:
+        print("SELFTEST-WARNING: divergence reported above; `./check selftest` (strict) exits 2 on it, and every "
+              "thorough tier runs the strict self-test of its own property first")
+        return core.EXIT_OK
     return core.EXIT_HARNESS if failures else core.EXIT_OK
